@@ -191,9 +191,6 @@ MXRT == "xrt" \in Acts /\ CanLog /\ \E v \in XCases : XRT("r", v) /\ PLog([op |-
 MXWrap == "xwrap" \in Acts /\ CanLog /\ \E v \in XCases : XWrap(v) /\ PLog([op |-> "xwrap", v |-> v])
 
 \* element trees (text tokens raw: "sp" is stripped by the reader)
-RECURSIVE TStripTree(_), TStripSeq(_)
-TStripSeq(ks) == IF ks = <<>> THEN <<>> ELSE <<TStripTree(Head(ks))>> \o TStripSeq(Tail(ks))
-TStripTree(e) == EN(e.tag, TStrip(e.text), e.attrs, TStripSeq(e.k))
 TAttr(id) == CASE id = "0" -> <<>> [] id = "k" -> <<[n |-> "k", v |-> "v"]>> [] id = "a" -> <<[n |-> "a", v |-> "v"]>>
                [] id = "kb" -> <<[n |-> "k", v |-> "v"], [n |-> "b", v |-> "x"]>>
 TLeaves == {EN(tag, tx, TAttr(at), <<>>) : tag \in {"a", "b"}, tx \in XTTexts, at \in XTAttrs}
